@@ -43,37 +43,7 @@ var allowedConstructs = map[string]bool{
 func runC02(p *Prog, r *Report) {
 	chains := p.Chains()
 	r.Analysed["emission_chains"] = len(chains)
-	// ---- R1
-	r.Rule("C02.R1", "closed emission vocabulary: every operator literal passed to jen Op() is one of = := != && < ++ & * (and <- in toChan), every jennifer construct used is in the audited list; anything else (arithmetic, ==, +=, slicing, type assertions, go/defer, append …) is not covered by the panic-freedom argument and is reported", 40)
-	nOps := 0
-	for _, c := range chains {
-		info := c.Pkg.TypesInfo
-		for _, l := range c.Links {
-			if l.Name == "Op" {
-				nOps++
-				site := c.Encl.Name() + "/Op"
-				s, ok := constString(info, l.Args[0])
-				if !ok {
-					r.Bad(site+"(non-constant)", p.PosStr(l.Call.Pos()), "operator is not a constant: the emitted operation is unknown")
-					continue
-				}
-				if _, ok := allowedOps[s]; !ok {
-					r.Bad(fmt.Sprintf("%s(%q)", site, s), p.PosStr(l.Call.Pos()), fmt.Sprintf("operator %q is outside the audited vocabulary of generated code", s))
-					continue
-				}
-				if s == "<-" && c.Encl.Name() != "xtype.toChan" {
-					r.Bad(fmt.Sprintf("%s(%q)", site, s), p.PosStr(l.Call.Pos()), "channel operation emitted outside type rendering")
-					continue
-				}
-				r.OK(fmt.Sprintf("%s(%q)", site, s), p.PosStr(l.Call.Pos()), allowedOps[s])
-				continue
-			}
-			if !allowedConstructs[l.Name] {
-				r.Bad(c.Encl.Name()+"/jen."+l.Name, p.PosStr(l.Call.Pos()), "construct jen."+l.Name+" is outside the audited vocabulary of generated code (not covered by the panic-freedom / termination argument)")
-			}
-		}
-	}
-	r.Analysed["emitted_operators"] = nOps
+	vocabularyRule(p, r, "C02.R1", chains)
 
 	c02R2(p, r)
 	containersFromMake(p, r, "C02.R3", true)
@@ -105,7 +75,42 @@ func runC02(p *Prog, r *Report) {
 
 	c02R6(p, r)
 	mustAssignRule(p, r, "C02.R7")
-	matchesGates(p, r, "C02.R8", "builder.(*List).Matches")
+	matchesGates(p, r, "C02.R8", "builder.(*List).Matches", "builder.(*Basic).Matches")
+	fieldPathRule(p, r, "C02.R9")
+}
+
+// vocabularyRule (C02.R1, shared as C01.R8): the closed vocabulary of emitted operators and constructs.
+func vocabularyRule(p *Prog, r *Report, id string, chains []*Chain) {
+	r.Rule(id, "closed emission vocabulary: every operator literal passed to jen Op() is one of = := != && < ++ & * (and <- in toChan), every jennifer construct used is in the audited list; anything else (arithmetic, ==, +=, slicing, type assertions, go/defer, append …) is not covered by the panic-freedom argument and is reported", 40)
+	nOps := 0
+	for _, c := range chains {
+		info := c.Pkg.TypesInfo
+		for _, l := range c.Links {
+			if l.Name == "Op" {
+				nOps++
+				site := c.Encl.Name() + "/Op"
+				s, ok := constString(info, l.Args[0])
+				if !ok {
+					r.Bad(site+"(non-constant)", p.PosStr(l.Call.Pos()), "operator is not a constant: the emitted operation is unknown")
+					continue
+				}
+				if _, ok := allowedOps[s]; !ok {
+					r.Bad(fmt.Sprintf("%s(%q)", site, s), p.PosStr(l.Call.Pos()), fmt.Sprintf("operator %q is outside the audited vocabulary of generated code", s))
+					continue
+				}
+				if s == "<-" && c.Encl.Name() != "xtype.toChan" {
+					r.Bad(fmt.Sprintf("%s(%q)", site, s), p.PosStr(l.Call.Pos()), "channel operation emitted outside type rendering")
+					continue
+				}
+				r.OK(fmt.Sprintf("%s(%q)", site, s), p.PosStr(l.Call.Pos()), allowedOps[s])
+				continue
+			}
+			if !allowedConstructs[l.Name] {
+				r.Bad(c.Encl.Name()+"/jen."+l.Name, p.PosStr(l.Call.Pos()), "construct jen."+l.Name+" is outside the audited vocabulary of generated code (not covered by the panic-freedom / termination argument)")
+			}
+		}
+	}
+	r.Analysed["emitted_operators"] = nOps
 }
 
 // c02R2: guarded dereference.
